@@ -919,6 +919,18 @@ def model_value(p, model):
             if z3.is_algebraic_value(v):
                 v = v.approx(30)
             return Fraction(v.numerator_as_long(), v.denominator_as_long())
+    syms = p.symbols()
+    if syms and all(T.rad[s_] is None for s_ in syms) and all(e > 0 for m_ in p.t for _, e in m_):
+        # polynomial in input symbols (e.g. a fixed phase times a positive modulus): evaluate symbol by symbol, so that symbols
+        # that enter the query only through their square variable get their reconstructed value
+        vals = {s_: model_value(P.sym(s_), model) for s_ in syms}
+        tot = Fraction(0)
+        for m_, c_ in p.t.items():
+            term = Fraction(c_)
+            for s_, e in m_:
+                term *= vals[s_] ** e
+            tot += term
+        return tot
     v = model.eval(p.to_z3(), model_completion=True)
     if z3.is_algebraic_value(v):
         v = v.approx(30)
